@@ -5,5 +5,7 @@ CONSTANTS
   RcCap = 65535
   MaxRefs = 65535
   Strategy = "ff"
+  ExactPool = TRUE
+  InvSkip = {}
 POSTCONDITION Accepted
 CHECK_DEADLOCK FALSE
